@@ -35,6 +35,8 @@ ACTIVE_EXCLUSIONS = {
     'C14-range-selectNode-chardata',
     'C14-range-toString-comment-pi',
     'C14-deepnodelist-pool-collision',
+    'C14-range-splitText-detached',
+    'C14-range-splitText-start-after-end',
 }
 _no = os.environ.get('VERIF_C14_NOEXCL', '')
 if _no == 'all': ACTIVE_EXCLUSIONS = set()
@@ -68,7 +70,7 @@ class H(dh.ViewHist):
 def run_case(case, ex):
     vp = case['setup'].get('vpre', 0)
     cls = type('H%d' % vp, (H,), {'vpre': vp})
-    return dh.run_case(case, ex, OPTABLE, views=True, hist_cls=cls)
+    return dh.run_case(case, ex, case.get('optable') or OPTABLE, views=True, hist_cls=cls)
 
 def worker(ctx):
     ex = ctx.executor('xv_dom')
